@@ -226,7 +226,8 @@ class State:
 
     def fork(self) -> "State":
         s = State()
-        s.env = dict(self.env)
+        # list values are grown in place by append/extend/+=: a fork gets its own copy so sibling paths do not share them
+        s.env = {k: (list(v) if type(v) is list else v) for k, v in self.env.items()}
         s.reads = list(self.reads)
         s.conds = list(self.conds)
         s.setattrs = list(self.setattrs)
@@ -281,6 +282,8 @@ class Evaluator:
             return SBytes([Seg("lit", Lin(len(v)), value=bytes(v))]) if v else SBytes([])
         if isinstance(v, str):
             return SStr([v])
+        if isinstance(v, dict):
+            return ("constdict", v)
         return v
 
     def as_lin(self, v: t.Any, node: ast.AST) -> Lin:
@@ -502,6 +505,12 @@ class Evaluator:
             return ("constdict", v)
         return Unknown(unparse(e))
 
+    def e_DictComp(self, e: ast.DictComp, st: State) -> t.Any:
+        ok, v = self.fold(e) if not self._mentions_local(e.generators[0].iter, st) else (False, None)
+        if ok and isinstance(v, dict):
+            return ("constdict", v)
+        return Unknown(unparse(e))
+
     def e_UnaryOp(self, e: ast.UnaryOp, st: State) -> t.Any:
         v = self.eval(e.operand, st)
         if isinstance(e.op, ast.USub):
@@ -609,9 +618,18 @@ class Evaluator:
             if tr is False:
                 return self.eval(e.values[1], st)
             return ("orexp", tr, a, e.values[1])
-        vals = [self.truth(self.eval(v, st), v, st) for v in e.values]
-        if all(isinstance(v, bool) for v in vals):
-            return all(vals) if isinstance(e.op, ast.And) else any(vals)
+        vals = []
+        for v in e.values:
+            tv = self.truth(self.eval(v, st), v, st)
+            if isinstance(tv, bool):
+                if tv == isinstance(e.op, ast.Or):
+                    return tv  # short circuit: a known-false conjunct / known-true disjunct decides the test
+                continue  # neutral element
+            vals.append(tv)
+        if not vals:
+            return isinstance(e.op, ast.And)
+        if len(vals) == 1:
+            return vals[0]
         return BoolVal(unparse(e), {"op": type(e.op).__name__, "values": vals})
 
     def e_Compare(self, e: ast.Compare, st: State) -> t.Any:
@@ -786,6 +804,8 @@ class Evaluator:
                 sub = st.fork()
                 sub.env[var] = item
                 out.append(self.eval(e.elt, sub))
+                st.reads[:] = sub.reads
+                st.calls[:] = sub.calls
             return out
         raise Unsupported(f"{self.func.qual}:{e.lineno}: comprehension over {it!r}")
 
@@ -998,6 +1018,16 @@ class Evaluator:
         raise Unsupported(f"{self.func.qual}:{e.lineno}: expected a constant string: {unparse(e)}")
 
     def call_method(self, base: t.Any, name: str, e: ast.Call, kw: t.Dict[str, ast.expr], st: State) -> t.Any:
+        if name == "to_bytes" and isinstance(base, DictMap) and base.table and all(isinstance(x, int) and not isinstance(x, bool) for x in base.table.values()):
+            # TABLE.get(key).to_bytes(n, order): a table of codes, each value encoded on its own
+            w_ = self.as_lin(self.eval(kw.get("length") or e.args[0], st), e)
+            order_ = self._const_str(kw.get("byteorder") or (e.args[1] if len(e.args) > 1 else None), "big", st)
+            signed_ = bool(self._const(kw.get("signed"), False))
+            if w_.is_const():
+                try:
+                    return DictMap({k: int(v).to_bytes(w_.const, order_, signed=signed_) for k, v in base.table.items()}, base.key)
+                except (OverflowError, ValueError):
+                    raise Unsupported(f"{self.func.qual}:{e.lineno}: a table value does not fit {w_.const} bytes")
         if name == "to_bytes":
             x = self.as_lin(base, e)
             width = self.as_lin(self.eval(kw.get("length") or e.args[0], st), e)
